@@ -1,10 +1,12 @@
 import Rivaas.Proto
 import Rivaas.Spec.Presence
+import Rivaas.Model.PresenceResolve
 import Rivaas.Lemmas.PresenceLeaf
 /-
 Driver for C05. Case line (strings hex-encoded, lists as `n item…`):
 
   <id> J <json> R <n> { <path> <resolves> <n> { <tag> <n> <shown path>… }* <num> <embedded> <cresolves> <cpanics> <n> <ctag>… }*
+       T <shape> W <n> { <n> <index>… <tag> <n> { <tag> <n> <relative shown path>… }* }*     (partial mode; else `T X W 0`)
        O <mode 0=partial 1=full 2=runAll 3=interface> <maxErrors> <maxFields> <n> <redacted path>… <singleRule>
        F <n> { <json path> <path as shipped> <tag> <n> <shown path>… }*
        I <n> { <path> <code> }*        (what the type's Validate() method returns; modes 2 = all strategies, 3 = interface only)
@@ -12,6 +14,7 @@ Driver for C05. Case line (strings hex-encoded, lists as `n item…`):
        K <leak> D <deterministic>
 
   <json> ::= L | O <n> { <key> <json> }* | A <n> <json>*
+  <shape> ::= X | Z | Q <shape> | S <n> <shape>* | T <n> { <go name> <json tag> <anonymous> <struct-typed> <validate tag> <shape> }*
 -/
 namespace Rivaas.DriverC05
 open Rivaas.Proto Rivaas.Presence
@@ -27,6 +30,23 @@ partial def pJson : P Json := do
     let n ← nat
     let items ← manyN n pJson
     pure (.arr items)
+  else failure
+
+partial def pShape : P Shape := do
+  let k ← tok
+  if k == "X" then pure .other
+  else if k == "Z" then pure .nilPtr
+  else if k == "Q" then Shape.ptr <$> pShape
+  else if k == "S" then do
+    let n ← nat
+    Shape.seq <$> manyN n pShape
+  else if k == "T" then do
+    let n ← nat
+    let fs ← manyN n (do
+      let name ← str; let jt ← str; let an ← bool; let sy ← bool; let vt ← str
+      let sh ← pShape
+      pure (({ name := name, jsonTag := jt, anonymous := an, structy := sy, validate := vt } : FieldInfo), sh))
+    pure (.struct fs)
   else failure
 
 def pViol : P Viol := do
@@ -48,6 +68,9 @@ def pRule : P Rule := do
 structure Case where
   top : List (Bytes × Json)
   rules : List Rule
+  /-- the shape of the value and `validator.Var` at its locations (partial mode) -/
+  shape : Shape
+  var : VarTable
   full : Bool
   mode : Nat
   /-- the errors returned by the type's own `Validate()` method -/
@@ -66,6 +89,10 @@ def pCase : P Case := do
     | _ => failure
   lit "R"
   let rules ← list pRule
+  lit "T"
+  let shape ← pShape
+  lit "W"
+  let var ← list (do let loc ← list nat; let t ← str; let vs ← list pViol; pure (loc, t, vs))
   lit "O"
   let mode ← nat
   let me ← nat
@@ -76,7 +103,7 @@ def pCase : P Case := do
   let fe ← list (do let p ← str; let ap ← str; let t ← pViol; pure (p, ap, t))
   lit "I"
   let ie ← list (do let p ← str; let c ← str; pure ({ path := p, code := c, hidden := false } : FieldErr))
-  pure { top := top, rules := rules, full := mode != 0, mode := mode, iface := ie,
+  pure { top := top, rules := rules, shape := shape, var := var, full := mode != 0, mode := mode, iface := ie,
          opts := { maxErrors := me, maxFields := mf, redacted := red }, single := single,
          fullErrs := fe.map fun (p, _, t) => (p, t), fullErrsAsIs := fe.map fun (_, ap, t) => (ap, t) }
 
@@ -132,14 +159,14 @@ def encV : VObs → String
 /-- the model of the code as it is in the repository now -/
 def modelPresence (c : Case) : List Path := presence c.top
 def modelLeaves (pm : List Path) : List Path := leafPaths pm
-/-- `validatePartial pm rules o` unfolded one step (`Rivaas.C05.validatePartial_unfold`, by `rfl`) so
+/-- `validatePartialT pm shape var o` unfolded one step (`Rivaas.C05.validatePartialT_unfold`, by `rfl`) so
     that the leaf list computed for the comparison is reused and the compiled code goes through the
     `@[csimp]` implementation of `leafPaths` (`Lemmas/PresenceLeaf.lean`) -/
 def modelValidate (c : Case) (leaves : List Path) : VObs :=
   if c.mode == 2 then .res (validateAll [coerce c.iface c.opts, validateFull c.fullErrs c.opts] c.opts)
   else if c.mode == 3 then .res (coerce c.iface c.opts)
   else if c.mode == 1 then .res (validateFull c.fullErrs c.opts)
-  else .res (partialFrom mkErr leaves (ownTags c.rules) c.opts)
+  else .res (partialFrom mkErr leaves (ownTagsT c.shape c.var) c.opts)
 
 /-- errors that ought to be reported, evaluated on the presence set the implementation reported -/
 def want (c : Case) (o : Obs) : List Want :=
